@@ -443,6 +443,10 @@ class Ref:
                 else:
                     raise RefUnsupported("method argument must be a primitive")
             ms = self.dm.method(v.cls, name, len(nums))
+            if name == "getAttributeFloat" and self.dm.backend == "atlas" and len(nums) == 1 and isinstance(nums[0], StrV):
+                # documented ATLAS built-in: the float attribute of that name (the C++ side reads it with getAttribute<float>)
+                from .model import MethodSpec, TNum
+                ms = MethodSpec("getAttribute<float>", TNum("float"), 1)
             r = self.ev.call_method(self.ctx, v.cls, ms, v.oid, nums)
             if isinstance(r, CollV):
                 return RSeq(list(r.slots))
@@ -496,7 +500,11 @@ class Ref:
                     from .model import toint
                     x = toint(a[0])
                     return Num("int", z3.If(x >= 0, x, -x))
-                return mathfn.apply(self.ev, name, a)
+                r = mathfn.apply(self.ev, name, a)
+                if mathfn.canonical(name) in mathfn.CPP_INT_RESULT:
+                    from .model import real as _real
+                    r = Num("int", z3.ToInt(_real(r)))       # the function of that name returns an integer
+                return r
             raise RefUnsupported(f"function {name}")
         if isinstance(f, ast.Attribute):
             if f.attr in LINQ:
